@@ -93,3 +93,35 @@ Definition decode_get (vs : list val) : Z :=
   | [tls] => tls
   | _ => 0
   end.
+
+(* ---- replay of a MERGED trace (tid, operation) in the thread model; returns what every query observes.
+   This is what the extracted driver runs on the global event sequence logged by harness/c15.c. *)
+Definition is_query (o : eop) : bool := match o with EGet _ | EGetTls => true | _ => false end.
+
+Fixpoint replay (tr : list (nat * eop)) (s : state) : list Z :=
+  match tr with
+  | [] => []
+  | (t, o) :: r =>
+      let st := eop_step t o in
+      (if is_query o then [decode_get (observe st s)] else []) ++ replay r (exec st s)
+  end.
+
+(* the same with a finite-map state (what is extracted; proved equal to replay in proofs/ErrStateProofs.v) *)
+Definition lstate := list (loc * val).
+Fixpoint lget (ls : lstate) (l : loc) : val :=
+  match ls with
+  | [] => 0
+  | (k, v) :: r => if loc_eqb l k then v else lget r l
+  end.
+Definition lset (l : loc) (v : val) (ls : lstate) : lstate :=
+  (l, v) :: filter (fun kv => negb (loc_eqb (fst kv) l)) ls.
+Definition lexec (st : step) (ls : lstate) : lstate :=
+  let vs := map (lget ls) (reads st) in
+  fold_right (fun l acc => lset l (sem st vs l) acc) ls (writes st).
+Fixpoint lreplay (tr : list (nat * eop)) (ls : lstate) : list Z :=
+  match tr with
+  | [] => []
+  | (t, o) :: r =>
+      let st := eop_step t o in
+      (if is_query o then [decode_get (map (lget ls) (reads st))] else []) ++ lreplay r (lexec st ls)
+  end.
